@@ -77,7 +77,7 @@ impl std::ops::Add for Size {
         match (self, rhs) {
             (Size::Unknown, _) | (_, Size::Unknown) => Size::Unknown,
             (Size::Dynamic, _) | (_, Size::Dynamic) => Size::Dynamic,
-            (Size::Static(lhs), Size::Static(rhs)) => Size::Static(lhs + rhs),
+            (Size::Static(lhs), Size::Static(rhs)) => Size::Static(lhs.saturating_add(rhs)),
         }
     }
 }
@@ -88,7 +88,7 @@ impl std::ops::Mul for Size {
         match (self, rhs) {
             (Size::Unknown, _) | (_, Size::Unknown) => Size::Unknown,
             (Size::Dynamic, _) | (_, Size::Dynamic) => Size::Dynamic,
-            (Size::Static(lhs), Size::Static(rhs)) => Size::Static(lhs * rhs),
+            (Size::Static(lhs), Size::Static(rhs)) => Size::Static(lhs.saturating_mul(rhs)),
         }
     }
 }
@@ -99,7 +99,7 @@ impl std::ops::Mul<usize> for Size {
         match self {
             Size::Unknown => Size::Unknown,
             Size::Dynamic => Size::Dynamic,
-            Size::Static(lhs) => Size::Static(lhs * rhs),
+            Size::Static(lhs) => Size::Static(lhs.saturating_mul(rhs)),
         }
     }
 }
@@ -366,7 +366,7 @@ impl Schema {
             for field in decl.fields().rev() {
                 schema.padded_size.insert(field.key, padding);
                 padding = match &field.desc {
-                    FieldDesc::Padding { size } => Some(8 * *size),
+                    FieldDesc::Padding { size } => Some(size.saturating_mul(8)),
                     _ => None,
                 };
             }
@@ -448,7 +448,7 @@ impl Schema {
                     schema.total_size(*type_key)
                 }
                 FieldDesc::Array { width: Some(width), size: Some(size), .. } => {
-                    Size::Static(*size * *width)
+                    Size::Static(size.saturating_mul(*width))
                 }
                 FieldDesc::Array {
                     width: None, size: Some(size), type_id: Some(type_id), ..
@@ -1725,7 +1725,7 @@ fn check_optional_fields(file: &File) -> Result<(), Diagnostics> {
 fn check_field_offsets(file: &File, scope: &Scope, schema: &Schema) -> Result<(), Diagnostics> {
     let mut diagnostics: Diagnostics = Default::default();
     for decl in &file.declarations {
-        let mut offset = 0;
+        let mut offset: usize = 0;
 
         for field in decl.fields() {
             match &field.desc {
@@ -1763,7 +1763,7 @@ fn check_field_offsets(file: &File, scope: &Scope, schema: &Schema) -> Result<()
                 | FieldDesc::Scalar { .. } => (),
             }
             offset = match schema.field_size[&field.key] {
-                Size::Static(size) => offset + size,
+                Size::Static(size) => offset.saturating_add(size),
                 Size::Dynamic | Size::Unknown => 0,
             };
         }
@@ -1779,7 +1779,7 @@ fn check_field_offsets(file: &File, scope: &Scope, schema: &Schema) -> Result<()
 fn check_decl_sizes(file: &File, schema: &Schema) -> Result<(), Diagnostics> {
     let mut diagnostics: Diagnostics = Default::default();
     for decl in &file.declarations {
-        let mut static_size = 0;
+        let mut static_size: usize = 0;
 
         for field in decl.fields() {
             match &field.desc {
@@ -1793,7 +1793,8 @@ fn check_decl_sizes(file: &File, schema: &Schema) -> Result<(), Diagnostics> {
                 ),
                 _ => (),
             }
-            static_size += schema.field_size[&field.key].static_().unwrap_or(0);
+            static_size =
+                static_size.saturating_add(schema.field_size[&field.key].static_().unwrap_or(0));
         }
 
         if static_size % 8 != 0 {
